@@ -888,6 +888,7 @@ Proof.
   - destruct (s_obj s) as [|t f|hd c] eqn:Ho; [| destruct t | destruct hd]; cbn [fst]; exact Hi.
   - destruct (s_obj s) as [|t f|hd c] eqn:Ho; [| destruct t | destruct hd]; cbn [fst]; exact Hi.
   - destruct (s_obj s) as [|t f|hd c] eqn:Ho; [| destruct t | destruct hd]; cbn [fst]; exact Hi.
+  - destruct (s_obj s) as [|t f|hd c] eqn:Ho; [| destruct t | destruct hd]; cbn [fst]; exact Hi.
 Qed.
 
 (* ------------------------------------------------------------------ every admissible history *)
